@@ -59,6 +59,10 @@ type dsProp struct {
 	Examples       []string    `json:"examples,omitempty"`
 	Disabled       bool        `json:"disabled,omitempty"`
 	DisabledReason *string     `json:"disabledReason,omitempty"`
+	// DisableLate: the property is disabled only after the object schema holding it has been
+	// constructed (the constructors take their snapshot of the defaults before). Harness-side only:
+	// the description, and therefore the model, cannot tell when a property was disabled.
+	DisableLate bool `json:"-"`
 }
 
 type dsNamedProp struct {
@@ -330,14 +334,31 @@ func (t *dsTy) buildObject() *schema.ObjectSchema {
 		}
 		ps := schema.NewPropertySchema(p.Ty.build(), p.Disp.display(), p.Required, p.RequiredIf, p.RequiredIfNot,
 			p.Conflicts, def, p.Examples)
-		ps.Disabled = p.Disabled
-		ps.DisabledReason = p.DisabledReason
+		if !p.DisableLate {
+			ps.Disabled = p.Disabled
+			ps.DisabledReason = p.DisabledReason
+		}
 		props[np.Name] = ps
 	}
+	var o *schema.ObjectSchema
 	if t.Unenforced {
-		return schema.NewUnenforcedIDObjectSchema(t.ID, props)
+		o = schema.NewUnenforcedIDObjectSchema(t.ID, props)
+	} else {
+		o = schema.NewObjectSchema(t.ID, props)
 	}
-	return schema.NewObjectSchema(t.ID, props)
+	// switched off in the finished object, as a user of somebody else's schema would do
+	for _, np := range t.Props {
+		if p := np.P; p.DisableLate {
+			ps := o.Properties()[np.Name]
+			if p.Disabled && p.DisabledReason != nil {
+				ps.Disable(*p.DisabledReason)
+			} else {
+				ps.Disabled = p.Disabled
+				ps.DisabledReason = p.DisabledReason
+			}
+		}
+	}
+	return o
 }
 
 func (p *dsPlugin) build() *schema.SchemaSchema {
@@ -471,10 +492,16 @@ func (d *dsGen) decorate(t *hx.Ty, hoist *[]dsNamedObj, ns bool) *dsTy {
 			if d.p(0.2) {
 				dp.Examples = []string{"1", "\"two\""}[:1+d.g.R.Intn(2)]
 			}
-			if p.Disabled && d.p(0.6) {
+			if !dp.Disabled && dp.Default != nil && dp.Ty.T != "ref" && d.p(0.2) {
+				dp.Disabled = true // a defaulted property that is switched off
+			}
+			if dp.Disabled {
+				dp.DisableLate = d.p(0.5)
+			}
+			if dp.Disabled && d.p(0.6) {
 				dp.DisabledReason = d.word()
 			}
-			if !p.Disabled && d.p(0.03) {
+			if !dp.Disabled && d.p(0.03) {
 				dp.DisabledReason = d.word() // a reason without the flag: carried, no effect
 			}
 			out.Props = append(out.Props, dsNamedProp{np.Name, dp})
@@ -543,6 +570,27 @@ func (d *dsGen) plugin() *dsPlugin {
 			return out
 		}
 		st.Handlers, st.Emitters = sigs("recv"), sigs("emit")
+		// the data schema of a handler should need linking: give its root an optional reference
+		for _, h := range st.Handlers {
+			if d.p(0.6) && len(h.V.Data.Objs) > 0 {
+				for _, o := range h.V.Data.Objs {
+					if o.ID == h.V.Data.Root && len(o.Ty.Props) >= 1 {
+						target := h.V.Data.Objs[d.g.R.Intn(len(h.V.Data.Objs))].ID
+						o.Ty.Props = append(o.Ty.Props, dsNamedProp{"item", &dsProp{Ty: &dsTy{T: "ref", ID: target}}})
+					}
+				}
+			}
+		}
+		// a handler and an emitter may carry the same ID: they live in two independent maps
+		if len(st.Handlers) > 0 && d.p(0.5) {
+			h := st.Handlers[d.g.R.Intn(len(st.Handlers))]
+			e := &dsSignal{ID: h.V.ID, Data: d.scope(false), Disp: d.disp(0.5)}
+			if len(st.Emitters) > 0 {
+				st.Emitters[0] = dsKeyed[*dsSignal]{h.Key, e}
+			} else {
+				st.Emitters = []dsKeyed[*dsSignal]{{h.Key, e}}
+			}
+		}
 		p.Steps = append(p.Steps, dsKeyed[*dsStep]{id, st})
 	}
 	return p
